@@ -26,3 +26,22 @@ Definition bound_height_free_stmt : Prop :=
    empty memtable when a tower of height 2 or more is drawn *)
 Definition old_bound_refuted_stmt : Prop :=
   exists cap es, ar_heights_ok es = true /\ ar_bound false es <= cap /\ ar_mem_add cap ar_empty_n es = None.
+
+(* every reachable counter: through ANY sequence of batches added to a memtable that starts with counter n0 (room for one unused
+   tower left), accepted or refused, whatever heights are drawn, no allocation fails after a granted reservation, the counter is
+   exactly n0 plus the cost of the accepted batches, it never decreases, and one unused tower still fits under the capacity *)
+Definition reachable_counter_stmt : Prop :=
+  arena_params_ok = true ->
+  forall cap bs n0, forallb ar_heights_ok bs = true -> n0 + ar_max_unused <= cap ->
+    ar_run cap bs n0 = n0 + ar_accepted_cost cap n0 bs /\ n0 <= ar_run cap bs n0 /\ ar_run cap bs n0 + ar_max_unused <= cap.
+
+(* a refused batch changes nothing, and it stays refused until the memtable is replaced: the counter only grows *)
+Definition refused_stays_refused_stmt : Prop :=
+  arena_params_ok = true ->
+  forall cap bs n0 es, forallb ar_heights_ok bs = true -> n0 + ar_max_unused <= cap ->
+    ar_mem_add cap n0 es = None -> ar_mem_add cap (ar_run cap bs n0) es = None.
+
+(* the empty memtable of the real capacity range meets the hypothesis (non-vacuity) *)
+Definition reachable_counter_example_stmt : Prop :=
+  ar_empty_n + ar_max_unused <= 4096 /\
+  ar_run 4096 [[(3, 4, 100)]; [(1, 2, 5000)]; [(20, 10, 10); (1, 1, 1)]] ar_empty_n = ar_empty_n + 435.
